@@ -28,7 +28,7 @@ PLAN = {
 
 def mc_cfg(family, slice_, of, inv):
     return ("SPECIFICATION Spec\nCONSTANTS\n Family = \"%s\"\n Slice = %d\n Of = %d\n"
-            "INVARIANTS %s Emit\nCHECK_DEADLOCK FALSE\n" % (family, slice_, of, inv))
+            "INVARIANTS %s\nCHECK_DEADLOCK FALSE\n" % (family, slice_, of, inv))
 
 
 def trace_cfg(path):
